@@ -1,4 +1,5 @@
 import BrushVerif.Proofs.Arith
+import BrushVerif.Proofs.ArithAlias
 import BrushVerif.Gen.ArithLevels
 set_option linter.unusedSimpArgs false
 /-!
@@ -550,5 +551,104 @@ theorem assignment_updates_innermost_binding (loc g : Env) (n : Str) (v : Val) (
 
 example : Env.set ([(['x'], .scalar ['5'])] ++ [(['x'], .scalar ['7', '7'])]) ['x'] (.scalar ['6']) =
     [(['x'], .scalar ['6']), (['x'], .scalar ['7', '7'])] := by decide
+
+/-! ## 8. a bare name is element 0; a read sees the latest write through either alias
+
+In bash (and in brush: `deref_lvalue`, `assign`) the bare name `a` of an array denotes `a[0]`.  Nothing may
+be remembered across the two spellings inside one evaluation: `a + (a[0] = 9) + a` is 1 + 9 + 9. -/
+
+/-- **A bare name reads element 0** — in every environment (the variable unset, a scalar or an array), for
+every parser and depth: `a` and `a[0]` evaluate to the same value and leave the same environment. -/
+theorem bare_name_is_element_zero (P : Str → Option Expr) (d : Nat) (env : Env) (n : Str) :
+    eval P d env (.ref (.var n)) = eval P d env (.ref (.elem n (.lit 0))) := by
+  rw [eval_ref_var, eval_ref_elem_lit, derefR_var_eq_elem0]
+
+example : eval numP 0 [(['a'], .arr [(0, ['4', '1']), (1, ['7'])])] (.ref (.elem ['a'] (.lit 0))) =
+    ([(['a'], .arr [(0, ['4', '1']), (1, ['7'])])], .ok 41) := by
+  rw [← bare_name_is_element_zero, eval_ref_var, derefR, derefStr]; decide
+
+/-- **A bare name is element 0 as an assignment target**: whenever the variable is an array at the moment of
+the store (unbounded right-hand side `r`, which may itself assign), `a = r` and `a[0] = r` yield the same
+value and the same environment.  (For a variable that is not an array the two differ in bash too: `x[0]=1`
+makes `x` an array, `x=1` does not.) -/
+theorem bare_name_is_element_zero_assign (P : Str → Option Expr) (d : Nat) (env : Env) (n : Str) (r : Expr)
+    (h : ∀ env1 v, eval P d env r = (env1, .ok v) → isArr env1 n) :
+    eval P d env (.assign (.var n) r) = eval P d env (.assign (.elem n (.lit 0)) r) := by
+  cases hr : eval P d env r with
+  | mk env1 res =>
+    cases res with
+    | ok v =>
+      rw [eval_assign_var_ok P d env env1 n r v hr, eval_assign_elem_lit_ok P d env env1 n 0 r v hr]
+      exact assignR_var_eq_elem0 env1 n v (h env1 v hr)
+    | err e => rw [eval_assign_err P d env env1 _ r e hr, eval_assign_err P d env env1 _ r e hr]
+
+example : eval numP 0 [(['a'], .arr [(0, ['1']), (1, ['2'])])] (.assign (.var ['a']) (.lit 9)) =
+    eval numP 0 [(['a'], .arr [(0, ['1']), (1, ['2'])])] (.assign (.elem ['a'] (.lit 0)) (.lit 9)) :=
+  bare_name_is_element_zero_assign numP 0 _ ['a'] (.lit 9)
+    (fun env1 v h => by rw [evalLit] at h; cases h; exact ⟨_, rfl⟩)
+
+/-- **… and as the target of `++`/`--`** (all four forms), for an array whose element 0 holds a plain number. -/
+theorem bare_name_is_element_zero_incdec (P : Str → Option Expr) (d : Nat) (env : Env) (op : IncOp) (n : Str) (k : Int64)
+    (ha : isArr env n) (hk : P (varStr env n) = some (.lit k)) :
+    eval P d env (.incDec op (.var n)) = eval P d env (.incDec op (.elem n (.lit 0))) := by
+  rw [eval_incDec_var, eval_incDec_elem_lit, ← derefR_var_eq_elem0, derefR_var_literal P d env n k hk]
+  simp only
+  rw [assignR_var_eq_elem0 env n _ ha]
+
+/-- **A read sees the latest write, through either alias.**  After an assignment `t = r` with `t` spelled
+`a` or `a[0]` has yielded `v` (any `r`, any environment), both `a` and `a[0]` read `v` and change nothing —
+provided only that the parser reads the decimal rendering of `v` back as `v`. -/
+theorem read_sees_latest_write (P : Str → Option Expr) (d : Nat) (env env1 : Env) (n : Str) (t : Target) (r : Expr) (v : Int64)
+    (ht : t = .var n ∨ t = .elem n (.lit 0))
+    (h : eval P d env (.assign t r) = (env1, .ok v))
+    (hP : P (showInt v) = some (.lit v)) :
+    eval P d env1 (.ref (.var n)) = (env1, .ok v) ∧ eval P d env1 (.ref (.elem n (.lit 0))) = (env1, .ok v) := by
+  have key : varStr env1 n = showInt v := by
+    cases hr : eval P d env r with
+    | mk env0 res =>
+      cases res with
+      | err e =>
+        rw [eval_assign_err P d env env0 t r e hr] at h
+        cases h
+      | ok w =>
+        rcases ht with ht | ht
+        · subst ht
+          rw [eval_assign_var_ok P d env env0 n r w hr, (assignR_var env0 n w).1] at h
+          cases h
+          exact (assignR_var env0 n v).2
+        · subst ht
+          rw [eval_assign_elem_lit_ok P d env env0 n 0 r w hr] at h
+          obtain ⟨env', h1, h2⟩ := assignR_elem0 env0 n w
+          rw [h1] at h
+          cases h
+          exact h2
+  have hv : eval P d env1 (.ref (.var n)) = (env1, .ok v) := by
+    rw [eval_ref_var, derefR_var_literal P d env1 n v (by rw [key]; exact hP)]
+  exact ⟨hv, by rw [← bare_name_is_element_zero]; exact hv⟩
+
+/-- **… inside a larger expression**: `(t = r) op a` with `t` spelled `a` or `a[0]` computes `v op v` from the
+value just stored (nothing of an earlier read of `a` survives the store). -/
+theorem read_sees_latest_write_in_expr (P : Str → Option Expr) (d : Nat) (env env1 : Env) (n : Str) (t : Target) (r : Expr)
+    (v : Int64) (op : BinOp)
+    (ht : t = .var n ∨ t = .elem n (.lit 0))
+    (h : eval P d env (.assign t r) = (env1, .ok v))
+    (hP : P (showInt v) = some (.lit v)) (hs : shortCut op v = none) :
+    eval P d env (.bin op (.assign t r) (.ref (.var n))) = (env1, applyBin op v v) ∧
+    eval P d env (.bin op (.assign t r) (.ref (.elem n (.lit 0)))) = (env1, applyBin op v v) := by
+  obtain ⟨h1, h2⟩ := read_sees_latest_write P d env env1 n t r v ht h hP
+  constructor
+  · rw [eval, h]; simp only [hs]; rw [h1]
+  · rw [eval, h]; simp only [hs]; rw [h2]
+
+private theorem assignA9 : eval numP 0 [(['a'], .arr [(0, ['1']), (1, ['2'])])] (.assign (.elem ['a'] (.lit 0)) (.lit 9)) =
+    ([(['a'], .arr [(0, ['9']), (1, ['2'])])], .ok 9) := by
+  rw [eval_assign_elem_lit_ok numP 0 _ _ ['a'] 0 (.lit 9) 9 (evalLit _ _ _)]; decide
+
+/-- `a=(1 2); (a[0] = 9) + a` is 18 -/
+example : eval numP 0 [(['a'], .arr [(0, ['1']), (1, ['2'])])]
+      (.bin .add (.assign (.elem ['a'] (.lit 0)) (.lit 9)) (.ref (.var ['a']))) =
+    ([(['a'], .arr [(0, ['9']), (1, ['2'])])], .ok 18) :=
+  (read_sees_latest_write_in_expr numP 0 _ _ ['a'] _ (.lit 9) 9 .add (Or.inr rfl) assignA9 (by decide) (by decide)).1
+
 
 end BrushVerif.C07
